@@ -139,54 +139,64 @@ def subst(t, s):
     return tmap(t, lambda n: copy.deepcopy(s[n["Generic"]["name"]]) if "Generic" in n and n["Generic"]["name"] in s else None)
 
 
+APPLICABLE = {
+    "Reference": ["lt", "mut"], "Path": ["lt", "id", "alias", "pkg"], "TypeAlias": ["lt", "id", "alias", "pkg"],
+    "FunctionPointer": ["name", "abi", "unsafe"], "RawPointer": ["mut"], "Array": ["len"],
+    "ScalarPrimitive": ["scalar"], "Tuple": ["arity"],
+}
+IGNORED = ["lt", "name"]                     # what matching / equivalence (should) ignore
+IGNORED_BY_TEMPLATE = ["lt", "name", "id"]   # template matching also ignores rustdoc ids
+SIGNIFICANT = ["mut", "alias", "pkg", "len", "scalar", "abi", "unsafe", "arity", "id"]
+
+
 def perturb(rng, t, p, kinds):
-    """Copies `t`, changing with probability p per node things that the operations (should) ignore or
-    (should) notice, as listed in `kinds`."""
+    """Copies `t`; with probability p per node changes one thing of the listed kinds that applies to it."""
     def f(n):
         (tag, v), = n.items()
-        if rng.random() >= p:
+        ks = [k for k in APPLICABLE.get(tag, []) if k in kinds]
+        if not ks or rng.random() >= p:
             return None
-        k = rng.choice(kinds)
-        if tag == "Reference":
-            if k == "lt":
-                return {tag: dict(v, lifetime=gen_lt(rng), inner=tmap(v["inner"], f))}
-            if k == "mut":
-                return {tag: dict(v, is_mutable=not v["is_mutable"], inner=tmap(v["inner"], f))}
-        if tag in ("Path", "TypeAlias"):
-            if k == "lt":
-                args = []
-                for a in v["generic_arguments"]:
-                    if "Lifetime" in a:
-                        args.append({"Lifetime": gen_glt(rng)})
-                    elif "TypeParameter" in a:
-                        args.append({"TypeParameter": tmap(a["TypeParameter"], f)})
-                    else:
-                        args.append(copy.deepcopy(a))
-                return {tag: dict(v, generic_arguments=args)}
-            if k == "id":
-                n2 = tmap(n, lambda m: None if m is n else f(m))
-                n2[tag]["rustdoc_id"] = rng.choice(IDS)
-                return n2
-            if k == "alias":
-                n2 = tmap(n, lambda m: None if m is n else f(m))
-                return {("Path" if tag == "TypeAlias" else "TypeAlias"): n2[tag]}
-            if k == "pkg":
-                n2 = tmap(n, lambda m: None if m is n else f(m))
-                n2[tag]["package_id"] = rng.choice(PKGS)
-                return n2
-        if tag == "FunctionPointer" and k == "name":
-            n2 = tmap(n, lambda m: None if m is n else f(m))
-            for i in n2[tag]["inputs"]:
+        k = rng.choice(ks)
+        n2 = tmap(n, lambda m: None if m is n else f(m))   # children first (they may change too)
+        v2 = n2[tag]
+        if k == "lt" and tag == "Reference":
+            v2["lifetime"] = gen_lt(rng)
+        elif k == "lt":
+            v2["generic_arguments"] = [{"Lifetime": gen_glt(rng)} if "Lifetime" in a else a for a in v2["generic_arguments"]]
+        elif k == "mut":
+            v2["is_mutable"] = not v2["is_mutable"]
+        elif k == "id":
+            v2["rustdoc_id"] = rng.choice(IDS)
+        elif k == "alias":
+            return {("Path" if tag == "TypeAlias" else "TypeAlias"): v2}
+        elif k == "pkg":
+            v2["package_id"] = rng.choice(PKGS)
+        elif k == "name":
+            for i in v2["inputs"]:
                 i["name"] = rng.choice(INPUT_NAMES)
-            return n2
-        if tag == "RawPointer" and k == "mut":
-            return {tag: dict(v, is_mutable=not v["is_mutable"], inner=tmap(v["inner"], f))}
-        if tag == "Array" and k == "len":
-            return {tag: {"element_type": tmap(v["element_type"], f), "len": v["len"] + 1}}
-        if tag == "ScalarPrimitive" and k == "scalar":
+        elif k == "abi":
+            v2["abi"] = copy.deepcopy(rng.choice(ABIS))
+        elif k == "unsafe":
+            v2["is_unsafe"] = not v2["is_unsafe"]
+        elif k == "len":
+            v2["len"] = v2["len"] + 1
+        elif k == "scalar":
             return sc(rng.choice(SCALARS)[0])
-        return None
+        elif k == "arity":
+            if v2["elements"] and rng.random() < 0.5:
+                v2["elements"].pop()
+            else:
+                v2["elements"].append(sc("U8"))
+        return n2
     return tmap(t, f)
+
+
+def with_generics(rng, depth, generics, p_generic):
+    for _ in range(6):
+        a = gen_ty(rng, depth, generics, p_generic)
+        if is_template(a):
+            return a
+    return {"Tuple": {"elements": [a, {"Generic": {"name": rng.choice(generics)}}]}}
 
 
 def rename(rng, t, injective=True):
@@ -224,45 +234,48 @@ def gen(rng):
     if rng.random() < 0.05:
         crates.pop("p2")
     if strat == "instance":
-        a = gen_ty(rng, depth, GENERICS[:rng.choice([1, 2, 2, 3])], p_generic=0.35)
+        a = with_generics(rng, depth, GENERICS[:rng.choice([1, 2, 2, 3])], 0.35)
         names = sorted({n["Generic"]["name"] for n in nodes(a) if "Generic" in n})
         s = {n: gen_ty(rng, rng.choice([0, 1, 2]), GENERICS if rng.random() < 0.1 else []) for n in names}
         b = subst(a, s)
         mode = rng.random()
-        if mode < 0.35:
-            b = perturb(rng, b, 0.5, ["lt", "id", "name"])          # should still match
+        if mode < 0.3:
+            b = perturb(rng, b, 0.5, IGNORED_BY_TEMPLATE)          # should still match
         elif mode < 0.7:
-            b = perturb(rng, b, 0.25, ["lt", "id", "name", "mut", "mut", "alias", "pkg", "len", "scalar"])
-        elif mode < 0.8:
+            b = perturb(rng, b, 0.3, IGNORED_BY_TEMPLATE)
+            b = perturb(rng, b, rng.choice([0.1, 0.3, 0.6]), SIGNIFICANT)   # should (mostly) not match
+        elif mode < 0.85:
             # one occurrence of a repeated generic instantiated differently
             seen = []
 
             def f(n):
-                if "Generic" in n and rng.random() < 0.3 and not seen:
+                if "Generic" in n and rng.random() < 0.4 and not seen:
                     seen.append(1)
                     return gen_ty(rng, 1, [])
                 return None
             b = subst(tmap(a, f), s)
         c = gen_ty(rng, 2, [])
+        if rng.random() < 0.1:
+            a, b = b, a                                             # concrete "template", templated "concrete" type
     elif strat == "rename":
-        a = gen_ty(rng, depth, GENERICS[:rng.choice([1, 2, 3, 4])], p_generic=0.35)
-        b = rename(rng, a, injective=rng.random() < 0.8)
+        a = with_generics(rng, depth, GENERICS[:rng.choice([1, 2, 3, 4])], 0.35)
+        b = rename(rng, a, injective=rng.random() < 0.75)
         if rng.random() < 0.6:
-            b = perturb(rng, b, 0.4, ["lt", "name"])
-        if rng.random() < 0.3:
-            b = perturb(rng, b, 0.2, ["mut", "id", "alias", "pkg", "len", "scalar", "lt"])
-        c = rename(rng, b, injective=rng.random() < 0.8)
+            b = perturb(rng, b, 0.4, IGNORED)
         if rng.random() < 0.5:
-            c = perturb(rng, c, 0.3, ["lt", "name"])
-        if rng.random() < 0.2:
-            c = perturb(rng, c, 0.2, ["mut", "id", "len"])
+            b = perturb(rng, b, rng.choice([0.2, 0.5, 0.8]), SIGNIFICANT)
+        c = rename(rng, b, injective=rng.random() < 0.75)
+        if rng.random() < 0.5:
+            c = perturb(rng, c, 0.3, IGNORED)
+        if rng.random() < 0.25:
+            c = perturb(rng, c, 0.2, SIGNIFICANT)
     elif strat == "random":
         d = rng.choice([0, 1, 1, 2])
         a, b, c = (gen_ty(rng, d, GENERICS[:2]) for _ in range(3))
     elif strat == "same":
         a = gen_ty(rng, depth, GENERICS[:2] if rng.random() < 0.5 else [])
         b = copy.deepcopy(a)
-        c = perturb(rng, a, 0.3, ["lt", "name"])
+        c = perturb(rng, a, 0.3, IGNORED)
     else:
         bad = rng.choice(MALFORMED)(rng)
         host = gen_ty(rng, rng.choice([0, 1, 2]), GENERICS[:1])
@@ -435,7 +448,7 @@ def nontrivial(case, out):
 def mutate(rng, c):
     c = copy.deepcopy(c)
     which = rng.choice(["a", "b", "c"])
-    c[which] = perturb(rng, c[which], 0.3, ["lt", "mut", "id", "name", "alias", "len"])
+    c[which] = perturb(rng, c[which], 0.3, IGNORED + SIGNIFICANT)
     c["wf"] = wf(c["a"])
     return c
 
